@@ -11,25 +11,61 @@ DRIVER = "C17"
 GENERATED = ["hashutil"]
 SOURCES = ["src/allmydata/util/hashutil.py", "src/allmydata/util/netstring.py", "src/allmydata/uri.py",
            "src/allmydata/client.py", "src/allmydata/mutable/common.py", "src/allmydata/mutable/filenode.py",
-           "src/allmydata/immutable/upload.py", "src/allmydata/immutable/checker.py", "src/allmydata/dirnode.py"]
+           "src/allmydata/mutable/publish.py", "src/allmydata/mutable/servermap.py",
+           "src/allmydata/immutable/upload.py", "src/allmydata/immutable/checker.py", "src/allmydata/dirnode.py",
+           "src/allmydata/storage_client.py"]
 DESIGN_REF = "DESIGN.md §2 C17"
-TECHNIQUE = ("Lean 4 theorems over an executable model of every hashutil derivation (Lean SHA-256/SHA-1, netstring), tags and "
-             "truncations extracted from the live source and pinned against the documented literals; three-way differential "
-             "run: Lean driver vs hashutil and its call sites vs an independent hashlib reference written from the spec text, "
-             "plus the repo's known-answer vectors")
-LEVEL_TEXT = ("spec_form / lengths / chains / domain_separated proved in Lean for all inputs (domain separation rests on a proved "
-              "netstring unique-decoding lemma and pairwise-distinct tags); the model is tied to util/hashutil.py by extraction of "
-              "tags+truncations and by correspondence on seeded inputs at function and call-site granularity.")
-LEVEL_NOTE = ("Lean kernel + standard axioms. SHA-256/SHA-1 in Lean are validated by NIST vectors and correspondence with hashlib, "
-              "not proved against FIPS 180-4; no cryptographic hardness is claimed (domain separation is about hash *inputs*).")
-RULE = ("a case is one derivation (or primitive / call-site chain / one call of a seeded call history on long-lived objects with "
-        "colliding server identities) evaluated on the implementation, the Lean driver and, where the spec defines it, the hashlib "
+TECHNIQUE = ("Lean 4 theorems (89) over executable models of (1) every hashutil derivation on a Lean SHA-256/SHA-1 and netstring "
+             "(Tahoe/Crypto/Derive.lean), (2) the code that pairs servers with secrets at the point of use — uploader tracker "
+             "table, immutable checker add-lease, mutable publish writers, servermap add-lease, announcement -> seeds "
+             "(Tahoe/Crypto/Use.lean), (3) MutableFileNode / Checker as state machines over call histories "
+             "(Tahoe/Crypto/Objects.lean); tags, truncations and the tag each function feeds are extracted from the live source "
+             "and pinned against the documented literals (one named theorem per tag). Differential run: Lean driver vs the real "
+             "code (hashutil, cap classes, SecretHolder, MutableFileNode, Checker, Tahoe2ServerSelector, dirnode, "
+             "NativeStorageServer/HTTPNativeStorageServer built from announcements, and the wire traffic of uploads, "
+             "check --add-lease, repair, mutable create/publish and directory copies on an in-process grid) vs an independent "
+             "hashlib reference written from the spec text, plus the known-answer vectors of test_hashutil.py and lease.rst. "
+             "A fixed corpus (one literal input/history per known mechanism, seeds C17-a..e) runs before the random families; "
+             "VERIF_CORPUS_ONLY=1 runs it alone.")
+LEVEL_TEXT = ("Proved in Lean for all inputs: spec_form_* (each derivation = SHA256d(netstring(tag) ++ ...) truncated as documented, "
+              "literal tags), tag_* pins, tag_binding, lengths_16/lengths_32, chain_* (write key -> read key -> storage index; "
+              "lease secret -> client -> file -> bucket secret; dirnode salt/key), domain_separated / domain_separated_blocks "
+              "(on netstring_unique_decoding, tags_pairwise_distinct and sha256_padding_injective); at the point of use, for any "
+              "candidate list and any filter: trackers_pairing, tracker_uses_own_server_secret, upload_query_carries_own_server_chain, "
+              "publish_writers_pairing, add_lease_matches_upload_lease, mutable_add_lease_matches_publish_lease, lease_seed_is_tubid, "
+              "announced_server_gets_tubid_chain; over any call history: node_answer_independent_of_history, "
+              "node_same_call_same_answer, checker_answers_independent_of_history; of SHA-256 itself only the padding "
+              "(sha256_padding_as_specified). The models are tied to the code by extraction (tags, truncate_to, tag used per "
+              "function) and by correspondence at function, object-history, call-site and wire granularity.")
+LEVEL_NOTE = ("Lean kernel + standard axioms (propext, Classical.choice, Quot.sound). The SHA-256/SHA-1 compression functions, "
+              "constants and block loop are validated by NIST vectors and by correspondence with hashlib, NOT proved against "
+              "FIPS 180-4 (only the Merkle-Damgard padding and the digest length are proved). No cryptographic hardness is "
+              "claimed: domain separation is a statement about hash inputs / block sequences. Correspondence only (no theorem "
+              "about the code): history independence of SecretHolder, of repeated Tahoe2ServerSelector rounds and of the dirnode "
+              "functions; the permuted server order and share placement are inputs of the tracker model (C32, C06/C07); AES-CTR "
+              "of the dirnode rwcap field and RSA key generation are exercised, not modelled. No defect of /repo was found for "
+              "C17; domain_separation_needs_secret_length records that my_*_secret_hash puts the secret in the tag position "
+              "(as lease.rst documents), which is why domain separation needs 32-byte lease secrets.")
+RULE = ("a case is one derivation, primitive (incl. SHA padding), call-site chain, tracker / writer table, announcement, one call "
+        "of a call history on long-lived objects with colliding server identities and re-keying (plus each object's whole history "
+        "through the object machine), or one secret observed on the wire of an in-process grid operation / one rwcap field of a "
+        "copied directory — evaluated on the implementation, the Lean driver and, where the spec defines it, the hashlib "
         "reference; distinct = distinct (operation, arguments); non-trivial = at least one byte-string argument is non-empty")
-TRUSTED = ["lean/Tahoe/Crypto/Derive.lean is a hand transcription of util/hashutil.py (control flow); tags and truncate_to values are extracted",
-           "lean/Tahoe/Base/Sha256.lean (SHA-256, SHA-1) is validated by vectors and by correspondence with hashlib, not proved",
-           "hashlib / hmac of CPython as the reference primitive"]
-ASSUMPTIONS = ["lease secrets are 32 bytes (needed only for domain separation of the client secrets, whose secret sits in the tag position)",
-               "truncate_to is None or an int; k, n, segsize are ints"]
+TRUSTED = ["lean/Tahoe/Crypto/Derive.lean, Use.lean, Objects.lean are hand transcriptions of util/hashutil.py and of the call sites "
+           "(control flow); tags, truncate_to values and the tag each function uses are extracted from the live source",
+           "lean/Tahoe/Base/Sha256.lean: SHA-256 / SHA-1 compression and block loop validated by vectors and by correspondence with "
+           "hashlib, not proved (padding and digest length are proved)",
+           "hashlib / hmac of CPython as the reference primitive; the `cryptography` AES-CTR used to open dirnode rwcap fields",
+           "harness/grid.py (in-process grid) and the server / broker / wire stand-ins of harness/props/c17.py, which hand the real "
+           "call sites their inputs and record what they send",
+           "the harness's own parsing of announcements (FURL Tub id, v0- server id) and of directory contents (netstrings, cap strings)"]
+ASSUMPTIONS = ["lease secrets are 32 bytes — needed only by domain_separated for the two client secrets, whose secret sits in the tag "
+               "position (domain_separation_needs_secret_length shows the guard is tight); all other theorems hold for any length",
+               "hasher inputs are shorter than 2^61 bytes for sha256_padding_injective / domain_separated_blocks (SHA-256's own domain)",
+               "server seeds are 20 bytes wherever a secret is produced; otherwise the code's assert fires and the theorems say "
+               "`none` (trackers_defined_iff, publish_defined_iff)",
+               "truncate_to is None or an int; k, n, segsize are ints",
+               "candidate servers handed to the uploader are distinct objects (the read-only trackers come from a Python set)"]
 
 # ---------------------------------------------------------------------------------------------
 # Independent reference, written from the specification text (docs/specifications/lease.rst,
